@@ -1,5 +1,195 @@
 package main
 
-// minLenInst: length of the shortest valid encoding of the instance in its
-// mode, for the forms C18 quantifies over; 0 = no model.
-func minLenInst(x *XInst) int { return 0 }
+import "fmt"
+
+func isALUImmGroup(mn string) bool {
+	switch mn {
+	case "ADD", "OR", "ADC", "SBB", "AND", "SUB", "XOR", "CMP":
+		return true
+	}
+	return false
+}
+
+func fitsS8(v int64) bool { return v >= -128 && v <= 127 }
+
+// signExtEquivalent: the value, reduced modulo 2^w, equals a sign-extended byte
+func signExtEquivalent(v int64, w int) bool {
+	m := uint64(v) & widthMask(w)
+	var s int64
+	if w == 16 {
+		s = int64(int16(m))
+	} else {
+		s = int64(int32(m))
+	}
+	return fitsS8(s)
+}
+
+// minLens returns (demanded, strict): `strict` is the length of the shortest
+// valid encoding of the instance in its mode; `demanded` is what C18 requires
+// gosk not to exceed -- the same, except that an immediate qualifies for the
+// sign-extended imm8 form only when its WRITTEN value is in -128..127 (this is
+// what NASK does; demanding more would be stricter than the property).
+// 0,0 = no model for this form.
+func minLens(x *XInst) (int, int) {
+	mode := x.Mode
+	p66 := func(w int) int {
+		if w != 8 && w != mode {
+			return 1
+		}
+		return 0
+	}
+	ops := x.Ops
+	switch {
+	case isALUImmGroup(x.Mn) && len(ops) == 2 && ops[1].Kind == XImm:
+		v := ops[1].Val
+		var w int
+		var body int // opcode + modrm (+sib+disp), without immediate
+		acc := false
+		p67 := 0
+		switch ops[0].Kind {
+		case XReg:
+			w = regWidth(ops[0].Class)
+			acc = ops[0].Reg == 0
+			body = 2
+		case XMem:
+			w = ops[0].Size
+			n, ap := memEncLen(ops[0], mode)
+			body = 1 + n
+			if ap {
+				p67 = 1
+			}
+		default:
+			return 0, 0
+		}
+		if w == 8 {
+			n := body + 1
+			if acc {
+				n = 2
+			}
+			return n + p67, n + p67
+		}
+		full := body + w/8
+		if acc {
+			full = 1 + w/8
+		}
+		short := body + 1
+		dem, str := full, full
+		if fitsS8(v) && short < dem {
+			dem = short
+		}
+		if (fitsS8(v) || signExtEquivalent(v, w)) && short < str {
+			str = short
+		}
+		return dem + p66(w) + p67, str + p66(w) + p67
+	case x.Mn == "MOV" && len(ops) == 2 && ops[0].Kind == XReg && ops[1].Kind == XImm && (ops[0].Class == R8 || ops[0].Class == R16 || ops[0].Class == R32):
+		w := regWidth(ops[0].Class)
+		n := 1 + w/8 + p66(w)
+		return n, n
+	case (x.Mn == "PUSH" || x.Mn == "POP") && len(ops) == 1 && ops[0].Kind == XReg && (ops[0].Class == R16 || ops[0].Class == R32):
+		n := 1 + p66(regWidth(ops[0].Class))
+		return n, n
+	case x.Mn == "MOV" && len(ops) == 2 && ((ops[0].Kind == XReg && ops[0].Reg == 0 && ops[1].Kind == XMem && ops[1].ASize == 0) ||
+		(ops[1].Kind == XReg && ops[1].Reg == 0 && ops[0].Kind == XMem && ops[0].ASize == 0)):
+		r, m := ops[0], ops[1]
+		if r.Kind != XReg {
+			r, m = m, r
+		}
+		if r.Class != R8 && r.Class != R16 && r.Class != R32 {
+			return 0, 0
+		}
+		w := regWidth(r.Class)
+		if mode == 16 && (m.Disp > 0xffff || m.Disp < -0x8000) {
+			return 0, 0 // the address does not fit the mode's address width: no canonical meaning
+		}
+		n := 1 + mode/8 + p66(w)
+		return n, n
+	}
+	return 0, 0
+}
+
+func minLenInst(x *XInst) int { d, _ := minLens(x); return d }
+
+func genC18() []*InstCase {
+	g := &instGen{prop: "C18"}
+	shapes := sampleShapes()
+	var imms []int64
+	for v := int64(-140); v <= 140; v++ {
+		imms = append(imms, v)
+	}
+	imms = append(imms, 0xff, 0x100, 0x7fff, 0x8000, 0xffff, 0xfff0, 0xff80, 0x10000, 0x7fffffff, 0x80000000, 0xffffffff, 0xffffff80, -0x8000, -0x7fffffff)
+	k := 0
+	for _, mode := range []int{16, 32} {
+		for _, mn := range []string{"ADD", "OR", "AND", "SUB", "XOR", "CMP", "ADC", "SBB"} {
+			for _, w := range widths {
+				for a := 0; a < 8; a++ {
+					ra := xgpr(w, a)
+					for _, v := range imms {
+						k++
+						if v > -120 && v < 120 && v != 0 && v != 1 && v != -1 && (int(v)+a+k)%6 != 0 {
+							continue // thin out the interior; keep everything near the boundaries
+						}
+						g.add(mn, mode, fmt.Sprintf("r%d,imm", w), "d="+regClassOf(ra)+" imm="+immClass18(v), ra, ximm(v, k%3))
+					}
+				}
+				for si, sh := range shapes {
+					for vi, v := range imms {
+						if v > -126 && v < 125 && (vi+si)%16 != 0 {
+							continue
+						}
+						g.add(mn, mode, fmt.Sprintf("m%d,imm", w), memClass(sh)+" imm="+immClass18(v), xmem(sh, w, true, 0, 1), ximm(v, vi%3))
+					}
+				}
+			}
+		}
+		for _, w := range widths {
+			acc := xgpr(w, 0)
+			for _, addr := range []int64{0, 1, 0x7f, 0x80, 0xff, 0x100, 0x0ff0, 0x1234, 0x7fff, 0x8000, 0xffff, 0x10000, 0x12345678} {
+				sh := MemShape{ASize: 0, Base: -1, Index: -1, Disp: addr, HasDisp: true}
+				g.add("MOV", mode, fmt.Sprintf("acc%d,moffs", w), "addr="+immClass(addr), acc, xmem(sh, w, false, 0, 1))
+				g.add("MOV", mode, fmt.Sprintf("moffs,acc%d", w), "addr="+immClass(addr), xmem(sh, w, false, 0, 1), acc)
+			}
+			for a := 0; a < 8; a++ {
+				ra := xgpr(w, a)
+				for _, v := range boundaryImms {
+					g.add("MOV", mode, fmt.Sprintf("r%d,imm", w), "d="+regClassOf(ra)+" imm="+immClass(v), ra, ximm(v, 1))
+				}
+				if w != 8 {
+					g.add("PUSH", mode, fmt.Sprintf("r%d", w), "d="+regClassOf(ra), ra)
+					g.add("POP", mode, fmt.Sprintf("r%d", w), "d="+regClassOf(ra), ra)
+				}
+			}
+		}
+	}
+	return g.cases
+}
+
+// immediate classes around the imm8 boundary
+func immClass18(v int64) string {
+	switch {
+	case v >= -128 && v <= -120:
+		return "s8.lo"
+	case v >= 120 && v <= 127:
+		return "s8.hi"
+	case v >= -140 && v < -128:
+		return "below"
+	case v > 127 && v <= 140:
+		return "above"
+	}
+	return immClass(v)
+}
+
+func init() {
+	props["C18"] = propCheck{run: func(env *Env, rep *Report) {
+		all := genC18()
+		rep.Rule = "every case is `[BITS m]` + one instruction of the forms C18 names (ADD/OR/AND/SUB/XOR/CMP/ADC/SBB r|m,imm for every register and ~35 memory shapes with immediates -140..140 and the boundary list; MOV acc<->absolute; MOV reg,imm; PUSH/POP reg); " +
+			"judged only when the bytes are a CORRECT encoding (C01 oracle): length must not exceed the shortest valid encoding computed by an independent length model; non-trivial = correct encoding judged; distinct = (mnemonic, form, mode, register class, immediate class, addressing class) cells"
+		cases := all
+		if env.Tier == "quick" {
+			cases = sampleByCell(NewRand(env.Seed, "C18"), all, 2)
+		} else {
+			rep.Exhaust = true
+		}
+		rep.Extra["case_space_size"] = len(all)
+		runInstCases(env, rep, cases)
+	}}
+}
